@@ -256,3 +256,87 @@ def time_config(vc):
     cfg2 = TimeConfig(start_timestamp=start.isoformat(), stop_timestamp=stop.isoformat(), physics_step_sec=phys, output_step_sec=phys)
     vc.ensure("B-C10-timeconfig.independent-steps", cfg.physics_step_sec == phys and cfg.output_step_sec == out and cfg.start_timestamp == start and cfg.stop_timestamp == stop
               and cfg2.physics_step_sec == phys and cfg2.start_timestamp == start and cfg2.stop_timestamp == stop)
+
+
+@obligation("C10", "factory_bounded", ensures=["B-C10-factory.own-object", "B-C10-factory.own-parameters", "B-C10-factory.truth-unaffected"],
+            fns=["resonaate.dynamics:dynamicsFactory", "resonaate.dynamics.special_perturbations:SpecialPerturbations.__init__"], mode="Z", native_only=True, samples=6,
+            bounded="BOUNDED stand-in, not a proof (the configuration models run inside pydantic, the integrator inside scipy): 6 (quick) / 60 (thorough) sampled pairs of spacecraft per run with different "
+                    "masses / cross sections / reflectivities, special perturbations with solar radiation pressure and third bodies, 5 minute propagation",
+            note="every agent gets its OWN dynamics object with its own area-to-mass parameters: building the dynamics of a second agent (at start or through addTarget) changes neither the first agent's "
+                 "dynamics object nor, bit for bit, the truth trajectory it integrates")
+def factory_bounded(vc):
+    import datetime
+    from resonaate.dynamics import dynamicsFactory
+    from resonaate.scenario.config.platform_config import SpacecraftConfig
+    from resonaate.scenario.config import PropagationConfig, GeopotentialConfig, PerturbationsConfig
+    from resonaate.physics.time.stardate import datetimeToJulianDate, ScenarioTime
+    start = datetime.datetime(2021, 3, 30, 16, 0, 0)
+    clock = _NS(julian_date_start=datetimeToJulianDate(start), datetime_start=start)
+    mk = lambda k: _NS(platform=SpacecraftConfig(mass=vc.real(f"mass{k}", 50, 5000), visual_cross_section=vc.real(f"area{k}", 0.5, 120), reflectivity=vc.real(f"refl{k}", 0.05, 0.9)))
+    a, b = mk(0), mk(1)
+    prop = PropagationConfig(propagation_model="special_perturbations", integration_method="RK45")
+    geo = GeopotentialConfig(model="egm96.txt", degree=2, order=0)
+    pert = PerturbationsConfig(third_bodies=["sun", "moon"], solar_radiation_pressure=True, general_relativity=False)
+    rad = vc.real("radius", 7000, 42000)
+    x0 = np.array([rad, 0.0, 0.0, 0.0, (398600.4418 / rad) ** 0.5 * 0.8, (398600.4418 / rad) ** 0.5 * 0.6])
+    alone = dynamicsFactory(a, prop, geo, pert, clock)
+    ref = alone.propagate(ScenarioTime(0.0), ScenarioTime(300.0), x0.copy())
+    snap = {k: repr(v) for k, v in vars(alone).items()}
+    other = dynamicsFactory(b, prop, geo, pert, clock)
+    other.propagate(ScenarioTime(0.0), ScenarioTime(300.0), x0[[1, 0, 2, 4, 3, 5]].copy())
+    vc.ensure("B-C10-factory.own-object", other is not alone)
+    vc.ensure("B-C10-factory.own-parameters", {k: repr(v) for k, v in vars(alone).items()} == snap)
+    again = alone.propagate(ScenarioTime(0.0), ScenarioTime(300.0), x0.copy())
+    vc.ensure("B-C10-factory.truth-unaffected", bool(np.array_equal(np.asarray(ref), np.asarray(again))))
+
+
+def _fresh_worker(job_sequence, start, sp):
+    """Play a parallel worker with a FRESH import of the resonaate package (= the module state of a new worker process): build the dynamics of each agent of
+    `job_sequence` and run, per 60 s step, the agents' propagation jobs in that order.  Returns the raw bytes of every state of the LAST agent of the sequence."""
+    import sys
+    import importlib
+    saved = {k: v for k, v in sys.modules.items() if k == "resonaate" or k.startswith("resonaate.")}
+    for k in saved:
+        del sys.modules[k]
+    try:
+        dyn_mod = importlib.import_module("resonaate.dynamics")
+        cfg = importlib.import_module("resonaate.scenario.config")
+        plat = importlib.import_module("resonaate.scenario.config.platform_config")
+        sd = importlib.import_module("resonaate.physics.time.stardate")
+        clock = _NS(julian_date_start=sd.datetimeToJulianDate(start), datetime_start=start)
+        prop = cfg.PropagationConfig(propagation_model="special_perturbations", integration_method="RK45")
+        geo = cfg.GeopotentialConfig(model="egm96.txt", degree=2, order=0)
+        pert = cfg.PerturbationsConfig(third_bodies=["sun", "moon"], solar_radiation_pressure=True, general_relativity=False)
+        agents = []
+        for x0, (mass, area, refl) in job_sequence:
+            d = dyn_mod.dynamicsFactory(_NS(platform=plat.SpacecraftConfig(mass=mass, visual_cross_section=area, reflectivity=refl)), prop, geo, pert, clock)
+            agents.append([d, np.array(x0, dtype=float)])
+        out = []
+        for k in range(sp):
+            for ag in agents:
+                ag[1] = np.asarray(ag[0].propagate(sd.ScenarioTime(60.0 * k), sd.ScenarioTime(60.0 * (k + 1)), ag[1].copy()), dtype=float)
+            out.append(agents[-1][1].tobytes())
+        return out
+    finally:
+        for k in [k for k in sys.modules if k == "resonaate" or k.startswith("resonaate.")]:
+            del sys.modules[k]
+        sys.modules.update(saved)
+
+
+@obligation("C10", "worker_history_bounded", ensures=["B-C10-worker.history-independent"],
+            fns=["resonaate.dynamics:dynamicsFactory", "resonaate.dynamics.special_perturbations:SpecialPerturbations._differentialEquation"], mode="Z", native_only=True, samples=3,
+            bounded="BOUNDED stand-in, not a proof (scipy's integrator and the ephemeris kernels are outside the extracted subset): 3 (quick) / 30 (thorough) sampled pairs (LEO target A, "
+                    "MEO/GEO target B) per run, five 60 s steps, special perturbations with Sun and Moon and solar radiation pressure; each job sequence runs on a fresh import of the package",
+            note="a propagation job's result is a function of its own submission: a worker that ran the jobs of another agent before each job of A returns, bit for bit, the states of A that a "
+                 "worker running A's jobs alone returns (no result depends on what else was propagated, hence on the other agents, on estimation jobs or on completion order)")
+def worker_history_bounded(vc):
+    import datetime
+    start = datetime.datetime(2021, 3, 30, 16, 0, 0) + datetime.timedelta(seconds=vc.int("start_off", 0, 86400 * 200))
+    s = vc.real("scale_a", 0.98, 1.05)
+    a = ([-2872.57438 * s, 3128.21583 * s, -5311.55207 * s, -5.250942201, -5.547484592, -0.428942173], (vc.real("mass_a", 100, 3000), vc.real("area_a", 1, 60), 0.21))
+    r = vc.real("radius_b", 20000, 43000)
+    v = (398600.4418 / r) ** 0.5
+    b = ([0.64 * r, 0.76 * r, 0.11 * r, -0.75 * v, 0.65 * v, 0.1 * v], (vc.real("mass_b", 100, 3000), vc.real("area_b", 1, 60), 0.3))
+    alone = _fresh_worker([a], start, 5)
+    after_b = _fresh_worker([b, a], start, 5)
+    vc.ensure("B-C10-worker.history-independent", alone == after_b)
